@@ -208,19 +208,36 @@ def div (O : FloatOps F C) (a b : NNum F C) : NNum F C :=
   | some x, some y => if y ≠ 0 then rat (x / y) else divFallback O a b
   | _, _ => divFallback O a b
 
+/-- `a ^ n` on integers (`Pow<&BigUint> for &BigInt`).  The bases 0, 1, −1 are answered without
+iterating, so that the model stays executable for exponents of any size (2^31, 2^64, …);
+`intPow a n = a ^ n` is proved in Theorems/C07.lean (`intPow_eq`) -/
+def intPow (a : Int) (n : Nat) : Int :=
+  if a = 0 then (if n = 0 then 1 else 0)
+  else if a = 1 then 1
+  else if a = -1 then (if n % 2 = 0 then 1 else -1)
+  else a ^ n
+
+/-- `q ^ n` on rationals (`Pow<&BigUint> for &Ratio`: numerator and denominator separately), with
+the same shortcut for 0, 1, −1; `ratPow q n = q ^ n` is proved (`ratPow_eq`) -/
+def ratPow (q : Rat) (n : Nat) : Rat :=
+  if q = 0 then (if n = 0 then 1 else 0)
+  else if q = 1 then 1
+  else if q = -1 then (if n % 2 = 0 then 1 else -1)
+  else q ^ n
+
 /-- `pow_big_ints` (`NInt::pow_maybe_recip` inlined) -/
 def powBigInts (O : FloatOps F C) (a b : Int) : NNum F C :=
   if b = 0 then int 1
-  else if 0 < b then int (a ^ b.toNat)
+  else if 0 < b then int (intPow a b.toNat)
   else
-    let r := a ^ (-b).toNat
+    let r := intPow a (-b).toNat
     if r = 0 then float O.posInf else rat ((r : Rat)⁻¹)      -- `BigRational::from(r).recip()`
 
 /-- `Pow<&BigInt> for &Ratio` (`pow_signed_impl!`): sign split, `into_recip` for negatives -/
 def ratPowInt (a : Rat) (b : Int) : Rat :=
   if b = 0 then 1
-  else if b < 0 then (a ^ (-b).toNat)⁻¹
-  else a ^ b.toNat
+  else if b < 0 then (ratPow a (-b).toNat)⁻¹
+  else ratPow a b.toNat
 
 /-- `NNum::pow_num` -/
 def powNum (O : FloatOps F C) : NNum F C → NNum F C → NNum F C
